@@ -6,6 +6,7 @@ use tower_resilience_bulkhead::{Bulkhead, BulkheadError, BulkheadLayer, Bulkhead
 
 pub struct Adapter {
     svc: Bulkhead<Inner>,
+    idle: Vec<Bulkhead<Inner>>,
 }
 
 impl Adapter {
@@ -17,7 +18,7 @@ impl Adapter {
             b = b.max_wait_duration(Duration::from_millis(ms));
         }
         let layer = b.build();
-        Adapter { svc: layer.layer(Inner::new()) }
+        Adapter { svc: layer.layer(Inner::new()), idle: Vec::new() }
     }
 }
 
@@ -31,17 +32,62 @@ pub fn render(r: Result<Resp, BulkheadServiceError<IErr>>) -> String {
 }
 
 impl Mw for Adapter {
+    /// `via=` says how the caller obtains the handle it calls (all are legitimate Tower usage and must behave alike):
+    /// `clone` (default) clone the template, ready the clone, call it; `readyclone` ready the template first, then
+    /// clone it, ready the clone, call the clone (the template stays ready-but-uncalled); `swap` the
+    /// `mem::replace` idiom: ready the template, leave a fresh clone in its place, call the readied one;
+    /// `template` ready and call the template itself.
     fn arrive(&mut self, c: usize, kv: &Kv) -> Option<CallFut> {
-        let mut svc = self.svc.clone();
         let req = Req::new(c, kv);
-        match poll_ready_once(&mut svc) {
-            std::task::Poll::Ready(Ok(())) => {}
-            _ => {
-                log(format!("result {} notready", c));
-                return None;
+        let via = kv.str("via", "clone");
+        let ready = |svc: &mut Bulkhead<Inner>| matches!(poll_ready_once(svc), std::task::Poll::Ready(Ok(())));
+        let fut = match via.as_str() {
+            "readyclone" => {
+                if !ready(&mut self.svc) {
+                    log(format!("result {} notready", c));
+                    return None;
+                }
+                let mut svc = self.svc.clone();
+                if !ready(&mut svc) {
+                    log(format!("result {} notready", c));
+                    return None;
+                }
+                svc.call(req)
             }
-        }
-        let fut = svc.call(req);
+            "swap" => {
+                if !ready(&mut self.svc) {
+                    log(format!("result {} notready", c));
+                    return None;
+                }
+                let fresh = self.svc.clone();
+                let mut readied = std::mem::replace(&mut self.svc, fresh);
+                readied.call(req)
+            }
+            "template" => {
+                if !ready(&mut self.svc) {
+                    log(format!("result {} notready", c));
+                    return None;
+                }
+                self.svc.call(req)
+            }
+            _ => {
+                let mut svc = self.svc.clone();
+                if !ready(&mut svc) {
+                    log(format!("result {} notready", c));
+                    return None;
+                }
+                svc.call(req)
+            }
+        };
         Some(held(fut, render))
+    }
+    /// `manual readyidle`: a handle is polled ready and then kept, never called (a balancer's ready-cache, a request
+    /// abandoned between `ready()` and `call()`); it must not cost capacity.
+    fn manual(&mut self, what: &str, _kv: &Kv) {
+        if what == "readyidle" {
+            let mut h = self.svc.clone();
+            let _ = poll_ready_once(&mut h);
+            self.idle.push(h);
+        }
     }
 }
